@@ -541,6 +541,14 @@ def sink_flush(M, ctx, r):
 def linescodec_new(M, ctx, *a):
     return Adt('LinesCodec', 0, list(a))
 
+@model('tokio_util::codec::Decoder::decode', 'tokio_util::codec::Decoder::decode_eof', 'tokio_util::codec::decoder::Decoder::decode', 'tokio_util::codec::decoder::Decoder::decode_eof')
+def lines_codec_decode(M, ctx, this, buf):
+    # the inner line decoder of tokio_util: the harness supplies what it returns (any Result<Option<String>, LinesCodecError>)
+    r = M.env.get('inner_decode')
+    if r is None: raise EncoderGap('LinesCodec::decode without a harness result')
+    M.env.setdefault('inner_decode_calls', []).append(ctx.method if hasattr(ctx, 'method') else 'decode')
+    return r
+
 # bytes::BytesMut for IRCLinesCodec::encode ------------------------------------------------------------------
 @model('bytes::BytesMut::new', 'bytes::BytesMut::with_capacity')
 def bytesmut_new(M, ctx, *a): return VecV()
